@@ -2457,6 +2457,7 @@ class InForeignContentPhase(Phase):
                         "fediffuselighting": "feDiffuseLighting",
                         "fedisplacementmap": "feDisplacementMap",
                         "fedistantlight": "feDistantLight",
+                        "fedropshadow": "feDropShadow",
                         "feflood": "feFlood",
                         "fefunca": "feFuncA",
                         "fefuncb": "feFuncB",
